@@ -44,6 +44,7 @@ def gen(ctx):
 
 
 def run(ctx):
+    from pytoniq_core.boc.cell import Cell
     dags = gen(ctx)
 
     def impl(dag):
@@ -85,7 +86,8 @@ def run(ctx):
         base = imap[cells.dag_line(d)]
         if base.startswith("err"):
             continue
-        for route in ("builder", "copy", "slice", "boc", "builder-reused", "slice-continued", "plain-bitarray"):
+        for route in ("builder", "copy", "slice", "boc", "builder-reused", "slice-continued", "plain-bitarray",
+                      "builder-to-slice-reused"):
             r = core.call_impl(lambda _: _route(d, route), None)
             nroute += 1
             if r != base:
@@ -113,6 +115,30 @@ def run(ctx):
             if same and len({a, b}) != 1:
                 ctx.fail("dict-key-mismatch", "equal cells are distinct dict keys", {"a": objs[i][0], "b": objs[j][0]})
     ctx.extra["eq_pairs"] = npairs
+    # equality across levels: a cell above a pruned branch has another representation hash than the full cell (they share
+    # only the level-0 hash), and a pruned branch is not the cell it stands for: "equal exactly when the hashes are equal"
+    nlev = 0
+    for d in ctx.rng.sample(dags, min(len(dags), 60)):
+        if not (2 <= len(d) <= 40) or not d[-1][2] or cells.dag_depth(d) > 200:
+            continue
+        try:
+            objs0 = cells.build_py(d)
+            full = objs0[-1]
+            kid = objs0[d[-1][2][0]]
+            pr = cells.build_py([cells.pruned_node(1, [kid.hash], [kid.get_depth(0)])])[0]
+            above = Cell(cells.tvm_bits(d[-1][1]), [pr] + [objs0[r] for r in d[-1][2][1:]], -1)
+        except Exception as ex:   # noqa
+            ctx.fail("pruned-variant-not-constructible", f"{type(ex).__name__}: {ex}", {"dag": d})
+            continue
+        for a, b, what in ((full, above, "cell above a pruned branch vs the full cell"), (kid, pr, "pruned branch vs the cell it stands for")):
+            nlev += 1
+            same = a.hash == b.hash
+            if (a == b) != same or (a.__hash__() == b.__hash__()) != same or (len({a, b}) == 1) != same:
+                ctx.fail("eq-not-hash-equality-across-levels", f"{what}: == / __hash__ / dict keys disagree with hash equality "
+                         f"(hashes equal: {same})", {"dag": d})
+            if a.__hash__() != int.from_bytes(a.hash, "big") or b.__hash__() != int.from_bytes(b.hash, "big"):
+                ctx.fail("pyhash-not-hash-int", "__hash__ is not the integer value of the hash (non-zero level)", {"dag": d})
+    ctx.extra["eq_pairs_across_levels"] = nlev
     if ctx.thorough():
         # three-way agreement on a sample of small trees: Model/Cell.build evaluated INSIDE Coq (vm_compute, incl. the
         # Gallina SHA-256) against the extracted OCaml driver's result (already compared with the implementation)
@@ -168,6 +194,24 @@ def _route(d, route):
             except Exception:
                 pass
         b.end_cell()
+    elif route == "builder-to-slice-reused":
+        # the cell is taken through builder.to_slice().to_cell(); the builder then goes on storing: the cell is a value,
+        # it must keep its content, and its hash must stay the representation hash of that content
+        from pytoniq_core.boc.builder import Builder
+        objs = cells.build_py(d)
+        ty, bits, refs = d[-1]
+        if ty != -1:
+            return cells.info_py(objs[-1])
+        b = Builder()
+        b.store_bits(bits)
+        for r in refs:
+            b.store_ref(objs[r])
+        c = b.to_slice().to_cell()
+        for more in (lambda: b.store_ref(Cell.empty()), lambda: b.store_bits("11"), lambda: b.store_ref(objs[0])):
+            try:
+                more()
+            except Exception:
+                pass
     elif route == "plain-bitarray":
         # the root built directly from a plain bitarray.bitarray (any length, byte-aligned or not)
         from bitarray import bitarray
